@@ -570,10 +570,8 @@ impl World {
         let media_want = |type_id: u8, ts: u32, len: usize, hash: u64, droppable: bool| -> Want {
             if alive {
                 Want::Media { type_id, msid: sid_guess, ts, len, hash, droppable }
-            } else if type_id == 9 {
-                Want::OnStreams { type_ids: &[9], msids: all_sids.clone() }
             } else {
-                Want::OnStreams { type_ids: &[8], msids: all_sids.clone() }
+                Want::MediaOn { type_id, msids: all_sids.clone(), ts, len, hash, droppable }
             }
         };
         let stream_want = |type_ids: &'static [u8]| -> Want {
